@@ -161,6 +161,9 @@ CORPUS = {
             "[metadata]\nname = demo\n\n[options]\ninstall_requires =\n    requests\n    flask\npython_requires = >=3.8\n\n[options.extras_require]\ndev =\n    flask\n",
             "[metadata]\r\nname = demo\r\n\r\n[options]\r\ninstall_requires =\r\n    requests\r\n    flask>=2.0\r\n",
             "[metadata]\nname = demo\n\n[options]\ninstall_requires =\n    requests",
+            # the text of the last requirement also occurs earlier, in another list
+            "[metadata]\nname = demo\n\n[options.extras_require]\ndev =\n    requests\n\n[options]\ninstall_requires =\n    flask\n    requests\n",
+            "[metadata]\nname = demo\n\n[options]\nsetup_requires =\n    requests\ninstall_requires =\n    requests\n",
         ],
         "same": ["[metadata]\nname = demo\n\n[options]\ninstall_requires =\n    requests\n    {PKG}\n"],
         "spelled": ["[metadata]\nname = demo\n\n[options]\ninstall_requires =\n    {ALT}>=0.1\n    requests\n"],
